@@ -161,6 +161,21 @@ def handle : Handler := fun op args impl =>
         if !distinct || !ok then some ⟨full, "na"⟩
         else some ⟨full, verdictOf (impl == full) ("support-" ++ what ++ "-outcome-never-reached")⟩
       | none => some ⟨"err", "na"⟩
+    | "shufflesites", [rate, rrate, first] => do
+      let rate ← fl rate
+      let rrate ← fl rrate
+      if rate < 0 || rate > 1 || rrate < 0 || rrate > 1 then some ⟨"exit", "na"⟩ else
+      let nbSites := fracOf rate L
+      let nbRogueSites := (rate * (1.0 - rate) * Float.ofNat L).floor.toUInt64.toNat
+      let nbRogueSeq := fracOf rrate n
+      let r := runSeed (shuffleSites nbSites nbRogueSites nbRogueSeq (decBool first) rows) seed
+      let v := match impl.splitOn " " with
+        | [o, rg] => match decRows o with
+          | some out => verdictOf (Spec.columnsKeepMultiset rows out &&
+              (decStrs rg).all (fun x => x == "" || (Spec.names rows).contains x)) "shufflesites-column-multiset-or-rogue-names"
+          | none => "fail:unparsable"
+        | _ => "fail:unparsable"
+      some ⟨encRows r.1 ++ " " ++ strJoin r.2, v⟩
     | "rarefy", [nb, counts] => do
       -- Rarefy(nb, counts): exact replay, same seed same result (the harness runs it three times), and the
       -- promise: the output is a sub-list of the rows (original order), every kept row has a count
